@@ -331,7 +331,10 @@ def build(spec):
         obj = cls(mat=_floats(rs, (n, t), flav), **kw, **_taxa_kwargs(spec, rs, n), **_trait_kw(spec, rs, t))
     elif name == "DenseMolecularCoancestryMatrix":
         a = _floats(rs, (n, n), flav)
-        obj = cls(mat=a + a.T, **_taxa_kwargs(spec, rs, n))
+        a = a + a.T
+        if n > 1 and rs.randint(2):
+            a[0, n - 1] += 0.5          # not symmetric: a transposed read-back must be noticed
+        obj = cls(mat=a, **_taxa_kwargs(spec, rs, n))
     elif name in ("DenseSquareTaxaTraitMatrix", "DenseTwoWayDHAdditiveGeneticVarianceMatrix"):
         obj = cls(mat=_floats(rs, (n, n, t), flav), **_taxa_kwargs(spec, rs, n), **_trait_kw(spec, rs, t))
     else:
@@ -612,7 +615,8 @@ def run_h5(case):
                         return True, "h5:%s" % name, "step %d: from_hdf5 returned %s" % (step, type(back).__name__)
                     dd = diff_obs(e, observe(back, name))
                     if dd:
-                        cls_ = _classify_h5(dd, "h5:%s" % name)
+                        # the stale-dataset class needs a richer earlier write to this very location in the input
+                        cls_ = _classify_h5(dd, "h5:%s" % name) if _shrinks(case["writes"][:step + 1], loc) else "h5:%s" % name
                         return True, cls_, "step %d, location %r read as %r: %s" % (step, gg, rg, _fmt(dd))
         finally:
             if handle is not None:
@@ -793,7 +797,8 @@ def run_df(case):
         # ---- classification of the known classes (everything else is `default`)
         if name == "DenseBreedingValueMatrix" and not case.get("unscale") and fields <= {"mat", "location", "scale"}:
             return True, BV_LOCSCALE, msg
-        if all(r.startswith("expected None, got a value") for _, r in dd) and fields <= {"taxa", "trait"}:
+        if all(r.startswith("expected None, got a value") for _, r in dd) and fields <= {"taxa", "trait"} \
+                and not (fields & set(opt)):
             return True, DF_ABSENT, msg
         if name in ("DenseSquareTaxaTraitMatrix", "DenseTwoWayDHAdditiveGeneticVarianceMatrix") and spec.get("shuffle") \
                 and fields <= {"mat", "taxa", "trait", "taxa_grp"} \
@@ -1111,7 +1116,8 @@ def run_case(case):
         if route == "vcf" and int(case.get("nvar", 1)) == 0 and isinstance(e, ValueError):
             cls_ = VCF_EMPTY
         return True, cls_, text
-    if bad and route == "h5" and cls_.startswith("h5:") and "hyperparams: key 'solver': str" in msg and " vs bytes " in msg \
+    if bad and route == "h5" and cls_.startswith("h5:") and any(w["spec"].get("hyper_str") for w in case["writes"]) \
+            and "hyperparams: key 'solver': str" in msg and " vs bytes " in msg \
             and msg.count(";") == 0:
         cls_ = H5_HYPER_STR
     return bad, cls_, msg
